@@ -33,6 +33,7 @@ def gen(rng, i, single):
 def run(ck):
     quick = ck.tier == "quick"
     rng = random.Random(ck.seed)
+    ck.allow_truncation = True   # blocking / spinning paths may exhaust the step budget under unfair schedules
     # the wake-up protocols: lost wake-ups are states of the models (Stuck / NoLostWakeup / PromptPoll / AtDeadline)
     ck.mc("Retry", "Retry.mc.cfg", timeout=3000)
     ck.mc("Timeout", "Timeout.mc.cfg", timeout=3000)
